@@ -502,6 +502,26 @@ def _e_words(kind, n, k, off):
     return True
 
 
+def _e_words0(kind, n, off):
+    """words of length 0: exactly one variable, whose index is the empty tuple"""
+    F = CNF()
+    F.update_variable_number(off)
+    X = [F.new_combinations, F.new_combinations_with_replacement, F.new_permutations, F.new_words][kind](n, 0)
+    if len(X) != 1 or list(X) != [off + 1] or F.number_of_variables() != off + 1:
+        return False
+    if [tuple(t) for t in X.indices()] != [()] or tuple(X.to_index(off + 1)) != () or tuple(X.to_index(-(off + 1))) != ():
+        return False
+    return len(list(F.all_variable_labels())) == off + 1
+
+
+def h_e_words0(kind: int, n: int, off: int) -> bool:
+    """
+    pre: 0 <= kind <= 3 and 0 <= n <= 4 and 0 <= off <= 2
+    post: _
+    """
+    return untraced(_e_words0, pick(kind, 0, 3), pick(n, 0, 4), pick(off, 0, 2))
+
+
 def h_e_words(kind: int, n: int, k: int, off: int) -> bool:
     """
     pre: 0 <= kind <= 3 and 0 <= n <= 4 and 1 <= k <= 3 and 0 <= off <= 2
